@@ -248,41 +248,28 @@ func nextExhaustedBefore(sp searchPath, i int) bool {
 
 func c12Quit(c *Ctx, m *searchModel) {
 	r := c.R
-	process := c.fn("R12-quit", "pkg/search/searchctl", "handle", "process")
-	halt := c.fn("R12-quit", "pkg/search/searchctl", "handle", "Halt")
-	if process == nil || halt == nil {
+	h := newHandleModel(c, "R12-quit")
+	if h == nil {
 		return
 	}
-	// process: wctx := WithQuitCancel(ctx, h.quit.Closed()); root.Search(wctx, ...)
+	process, halt := h.process, h.halt
+	// process: wctx := WithQuitCancel(ctx, <quit>.Closed()); root.Search(wctx, ...)
 	var derived ssa.Value
-	for _, b := range process.Blocks {
-		for _, ins := range b.Instrs {
-			if call, ok := ins.(*ssa.Call); ok && call.Call.StaticCallee() != nil && call.Call.StaticCallee().Name() == "WithQuitCancel" {
-				if strings.Contains(pathExpr(call.Call.Args[1]), "h.quit") && strings.Contains(pathExpr(call.Call.Args[1]), "Closed") {
-					derived = call
-				}
-			}
+	for _, e := range evsOf(h.proc, hvDerive) {
+		if e.Field == h.quitF {
+			derived = e.Val
 		}
 	}
 	okSearch := false
-	for _, b := range process.Blocks {
-		for _, ins := range b.Instrs {
-			if call, ok := ins.(*ssa.Call); ok && call.Call.IsInvoke() && call.Call.Method.Name() == "Search" {
-				if ex, ok := call.Call.Args[0].(*ssa.Extract); ok && derived != nil && ex.Tuple == derived && ex.Index == 0 {
-					okSearch = true
-				}
-			}
+	for _, e := range evsOf(h.proc, hvSearch) {
+		call := e.Val.(*ssa.Call)
+		ctxArg := e.frame.resolve(call.Call.Args[0])
+		if ex, ok := ctxArg.(*ssa.Extract); ok && derived != nil && ex.Tuple == derived && ex.Index == 0 {
+			okSearch = true
 		}
 	}
-	r.Check(derived != nil && okSearch, "R12-quit", "searchctl.handle.process searches under the context cancelled by quit", c.pos(process.Pos()), "", "the root search must receive the context derived by WithQuitCancel(ctx, h.quit.Closed())")
-	closes := false
-	for _, b := range halt.Blocks {
-		for _, ins := range b.Instrs {
-			if call, ok := ins.(*ssa.Call); ok && call.Call.IsInvoke() && call.Call.Method.Name() == "Close" && strings.Contains(pathExpr(call.Call.Value), "h.quit") {
-				closes = true
-			}
-		}
-	}
+	r.Check(derived != nil && okSearch, "R12-quit", "searchctl.handle.process searches under the context cancelled by quit", c.pos(process.Pos()), "", "the root search must receive the context derived by WithQuitCancel(ctx, <quit>.Closed())")
+	closes := len(h.closes(h.hlt, h.quitF, false)) > 0
 	r.Check(closes, "R12-quit", "searchctl.handle.Halt closes the quit channel", c.pos(halt.Pos()), "", "")
 	// nested searches forward ctx and sctx
 	bad := ""
